@@ -463,9 +463,9 @@ def is_opb_rows(F):
     return hasattr(F, 'number_of_constraints')
 
 
-def z3_equivalent(n, clauses, constraints):
+def z3_equivalent(n, clauses, constraints, timeout_ms=None):
     """None if the CNF `clauses` and the PB `constraints` over variables 1..n have the same models,
-    else an assignment (dict var->bool) on which they differ"""
+    else an assignment (dict var->bool) on which they differ; 'unknown' if z3 gives up within the timeout"""
     import z3
     xs = [None] + [z3.Bool('x%d' % i) for i in range(1, n + 1)]
 
@@ -480,9 +480,12 @@ def z3_equivalent(n, clauses, constraints):
         parts.append({'>=': s >= value, '==': s == value, '<=': s <= value, '>': s > value, '<': s < value}[op])
     pb = z3.And(parts) if parts else z3.BoolVal(True)
     sol = z3.Solver()
+    if timeout_ms:
+        sol.set('timeout', int(timeout_ms))
     sol.add(z3.Xor(cnf, pb))
     r = sol.check()
-    assert r != z3.unknown
+    if r == z3.unknown:
+        return 'unknown'
     if r == z3.unsat:
         return None
     m = sol.model()
